@@ -161,12 +161,42 @@ func (f *Fed) Run(query, op string, vars map[string]interface{}, timeout time.Du
 	case <-time.After(5 * time.Second):
 		return Outcome{Hung: true, PlanHung: true}
 	}
+	return awaitOutcome(ch, timeout)
+}
+
+// awaitOutcome waits for the outcome of a request. "Did not return" is a statement about the code under test, not
+// about the machine: when the deadline passes, the wake-up latency of short sleeps is measured. On a responsive machine
+// the request gets one more short grace period and is then reported as hung; on a machine that is visibly not running
+// this process (other checks, a busy sandbox) the wait goes on, up to two more minutes. A request that never returns
+// is reported either way; one that was merely starved of CPU is not (thorough sweep of round 10: seven such alarms in
+// C06 while three checks ran at once, none when run alone).
+func awaitOutcome(ch chan Outcome, timeout time.Duration) Outcome {
 	select {
 	case r := <-ch:
 		return r
 	case <-time.After(timeout):
-		return Outcome{Hung: true}
 	}
+	for extra := 0; extra < 12; extra++ {
+		worst := time.Duration(0)
+		for k := 0; k < 5; k++ {
+			t0 := time.Now()
+			time.Sleep(10 * time.Millisecond)
+			if late := time.Since(t0) - 10*time.Millisecond; late > worst {
+				worst = late
+			}
+		}
+		grace := 10 * time.Second
+		select {
+		case r := <-ch:
+			return r
+		case <-time.After(grace):
+		}
+		if worst < 40*time.Millisecond {
+			// the machine runs us promptly and the request has had timeout + 10 s
+			return Outcome{Hung: true}
+		}
+	}
+	return Outcome{Hung: true}
 }
 
 // Plan only plans, under a watchdog.
